@@ -41,6 +41,10 @@ impl XorShiftRng {
     }
 
     pub fn random_range(&mut self, lower: i64, upper: i64) -> i64 {
-        (self.random() * (upper - lower) as f64) as i64 + lower
+        match upper.checked_sub(lower) {
+            Some(width) => (self.random() * width as f64) as i64 + lower,
+            // the width does not fit i64: compute in floats
+            None => (self.random() * (upper as f64 - lower as f64) + lower as f64) as i64,
+        }
     }
 }
